@@ -154,6 +154,9 @@ class Session:
                 self.net.remove_reaction(st["i"])
             elif kind == "set_allowed":
                 self.net.allowed_species = list(st["names"])
+            elif kind == "shielding_inplace":
+                for k, v in st["values"].items():
+                    self.net.shielding[k] = v
             elif kind == "set_eb":
                 objs = list(self.net.reactants | self.net.products)
                 for r in self.net.reaction_list:
